@@ -174,9 +174,11 @@ func (a *Announce) getPeers(ctx context.Context, addr krpc.NodeAddr) traversal.Q
 			},
 			Return: *r,
 		}
+		// Stopped can't fire while this query is outstanding, so waiting on it here would hang
+		// forever if the consumer has stopped reading. Give up when the announce is closed.
 		select {
 		case a.Peers <- peersValues:
-		case <-a.traversal.Stopped():
+		case <-a.closed.Done():
 		}
 	}
 	return res.TraversalQueryResult(addr)
